@@ -40,6 +40,10 @@ func genClosures(r *rand.Rand, id string, tier string) string {
 		for i, n := 0, r.Intn(4); i < n; i++ {
 			recv.Xs = append(recv.Xs, V{T: 's', S: fmt.Sprintf("v%d", i)})
 		}
+		if r.Intn(4) == 0 {
+			// a read-only member: Free of the (writable) holder is the holder's business alone
+			recv.Xs = append(recv.Xs, V{T: 'K', Form: []string{"n", "a"}[r.Intn(2)], Cfg: Cfg{Kind: 2, Opt: fRO}, Xs: []V{{T: 'i', I: 1}}})
+		}
 	}
 	var ops []string
 	for i, n := 0, 1+r.Intn(7); i < n; i++ {
@@ -101,13 +105,14 @@ func runClosures(payload string) string {
 			if isStack {
 				twin := BuildStack(v) // an equal copy of the initial content (content never changes except through marshal)
 				u, uerr := s.Unmarshal()
-				return fmt.Sprintf("V%s S%s Qc%s Qd%s U%s{%s} R%s L%d", errTokC(s.Valid()), hx(s.String()), errTok(s.IsEqual(twin)), errTok(s.IsEqual(stackage.Basic().Push(99))),
-					errTokC(uerr), Describe(any(u)), errClass(s.Err()), s.Len())
+				// Qs: compared with itself - an installed equality closure is consulted all the same
+				return fmt.Sprintf("V%s S%s Qc%s Qd%s Qs%s U%s{%s} R%s L%d", errTokC(s.Valid()), hx(s.String()), errTok(s.IsEqual(twin)), errTok(s.IsEqual(stackage.Basic().Push(99))),
+					errTok(s.IsEqual(s)), errTokC(uerr), Describe(any(u)), errClass(s.Err()), s.Len())
 			}
 			twin := BuildCond(v)
 			u, uerr := c.Unmarshal()
-			return fmt.Sprintf("V%s S%s Qc%s Qd%s U%s{%s} R%s", errTokC(c.Valid()), hx(c.String()), errTok(c.IsEqual(twin)), errTok(c.IsEqual(stackage.Cond("zz", stackage.Ne, 5))),
-				errTokC(uerr), Describe(any(u)), errClass(c.Err()))
+			return fmt.Sprintf("V%s S%s Qc%s Qd%s Qs%s U%s{%s} R%s", errTokC(c.Valid()), hx(c.String()), errTok(c.IsEqual(twin)), errTok(c.IsEqual(stackage.Cond("zz", stackage.Ne, 5))),
+				errTok(c.IsEqual(c)), errTokC(uerr), Describe(any(u)), errClass(c.Err()))
 		})
 	}
 	cl := func(t reflect.Type, tok string) []reflect.Value {
